@@ -61,6 +61,7 @@ func New(seed uint64, cfg gw.Config) (*Env, error) {
 		return nil, err
 	}
 	e := &Env{S: sim.New(seed), Dirs: dirs, Cfg: cfg, Routed: map[int]int{}}
+	e.S.BasePrefix = base
 	e.S.Install()
 	e.FragRng = sim.Rng(seed, "frag")
 	e.RouteRng = sim.Rng(seed, "route")
@@ -222,7 +223,7 @@ func (e *Env) RoundTrip(g int, sg *s3c.Signed, co *ConnOpts) *Result {
 		}
 		e.evSeq++
 		res.Ret = e.evSeq
-		e.S.Tracef("t%d RESP %d len=%d crashed=%v", t.ID, res.Resp.Status, len(res.Resp.Body), res.Serve.Crashed)
+		e.S.Tracef("t%d RESP %d crashed=%v", t.ID, res.Resp.Status, res.Serve.Crashed)
 	}
 	if e.S.Cur() != nil {
 		body()
